@@ -22,9 +22,30 @@ def wordish(ch):
     return ch.isalnum() or ch in "_°"
 
 
+NUM_RE = re.compile(r"^[0-9]+(\.[0-9]+)?(e-?[0-9]+)?$")
+
+
 def needs_sep(a, b):
-    """independent adjacency rule: a blank is needed only between two lexemes that would fuse"""
-    return bool(a) and bool(b) and wordish(a[-1]) and (wordish(b[0]) or b[0] == ".")
+    """independent adjacency rule: a blank is needed only between two lexemes that would fuse.  A word fuses with
+    anything that continues a word; a number fuses only with what continues a number: a digit, `.digit` when it has no
+    fraction or exponent yet, `e digit` / `e - digit` when it has no exponent yet (`2i`, `2x`, `3pi` are two tokens)"""
+    if not a or not b:
+        return False
+    if a[0].isascii() and a[0].isdigit() and NUM_RE.match(a):
+        if b[0].isascii() and b[0].isdigit():
+            return True
+        has_exp = "e" in a
+        has_frac = "." in a
+        if b[0] == "." and len(b) > 1 and b[1].isdigit() and not has_frac and not has_exp:
+            return True
+        if b[0] == "e" and not has_exp:
+            rest = b[1:]
+            if rest[:1].isdigit() and rest[:1].isascii():
+                return True
+            if rest == "":          # `e` alone: the next lexeme could be `-` digit; keep the blank to stay on the safe side
+                return True
+        return False
+    return wordish(a[-1]) and (wordish(b[0]) or b[0] == ".")
 
 
 def render(tokens, rng, mode):
@@ -78,6 +99,8 @@ def run_rerender(ctx):
                  "2e-e\n", "1.5e\n", "3e-2e-1\n", "4e - 1\n", "x=1;2e-x;x e - 1\n", "12.5e3e\n", "1e1e1\n", "5 m2\n", "5m 2\n", "2x\n", "2 x\n", "x2\n", "ab\n", "a b\n"]
     programs += ["sq(x) =\nx^2\nsq(3)\n", "sq(x) =;x^2;sq(3)\n", "x =\n1\nx\n", "x =;1;x\n", "delete\nx\n", "f(\n1)\n", "1 +;2;", "x = 2;;x * 3\n", ";x = 5\nx\n", "x = 1\nx;;\n",
                  "clear\n;\nx\n", "[1,2\n]\n", "1 as\nkm\n", "f(a) = a;f(\n2)\n"]
+    programs += ["2 i", "a + 2 i", "f(3 i)", "2 x", "3 pi", "2 (3)", "5 km m", "2 e", "2 e3", "2 e 3", "2 e - 3", "1.5 e2", "2 .5", "2. 5", "1 . 5", "2 in", "2 inch", "12 i n", "0 b", "0 b1",
+                 "x = 2 i\nx\n", "1 2 3", "a b", "sin 0", "2 sin(0)", "10 e", "10 e-", "1 e²"]
     programs += ["1 +\n2", "x = \n", "[1, 2; 3]\n", "(1\n)", "1 2\n", "5 as\n", "# 1\n", "delete 3\n", "1e5m\n2e-3 e\n10e + 1e-x 12.5e3 1.\n",
                  "x=1;;;;x\n\n\n;x\n", ";\n", "", "\n\n", "[1,2\n;3,4]\n", "[1;\n2]\n", "f(a,\nb)=a\n"]
     # phase 1: tokens of the originals (implementation and model agree or C04 reports it)
@@ -155,8 +178,17 @@ def separator_choice_on_binary(ctx, rng, count):
                               oracle="same results and diagnostic kinds expected, only positions may differ")
     # blank choice through the real binary at several tab sizes (tab-only blanks between word-like tokens)
     bad2 = m = 0
-    for prog in ["delete\tw", "x\t=\t1500\tm\tas\tkm\nx", "f(a)\t=\ta\tdot\ta\nf([1,2])", "1\t2", "x\t=\t3\nx\tas\tm", "clear\tx"]:
-        base = front.run_binary(ctx, dict(id="b", tab=4, file=None, expr=prog.replace("\t", " "), stdin=None))
+    for prog in ["w = 5 *\r2 ; v = w +\r\r1 ; v \r", "1 /\r0\r", "w = 5 *\r2\r", "w\r=\r3;\rw\r", "\rw = 1;\r\rw\r;", "delete\tw", "x\t=\t1500\tm\tas\tkm\nx", "f(a)\t=\ta\tdot\ta\nf([1,2])", "1\t2", "x\t=\t3\nx\tas\tm", "clear\tx"]:
+        base = front.run_binary(ctx, dict(id="b", tab=4, file=None, expr=prog.replace("\t", " ").replace("\r", " "), stdin=None))
+        for asfile in (True,):
+            o = front.run_binary(ctx, dict(id="b", tab=4, file=prog, expr="0 * 1", stdin=None))
+            b2 = front.run_binary(ctx, dict(id="b", tab=4, file=prog.replace("\t", " ").replace("\r", " "), expr="0 * 1", stdin=None))
+            m += 1
+            rep.evaluations += 1
+            if norm(o[1]) != norm(b2[1]):
+                bad2 += 1
+                rep.violation("a tab / carriage return between tokens of a preload file changes the outcome of %r" % (prog,), case="front-blank-file " + repr(prog),
+                              impl=[b2[1], o[1]], stream="blanks-binary", oracle="blanks between tokens are interchangeable")
         for t in (0, 1, 8, 255):
             o = front.run_binary(ctx, dict(id="b", tab=t, file=None, expr=prog, stdin=None))
             m += 1
@@ -296,6 +328,8 @@ def run_listing(ctx):
              "lf(a) = a + 1e-17\nlf\n", "lf(a) = a * 3e-20 km\nlf\n", "lf(a) = [2e-16, a]\nlf\n", "lf(1e-20) = 1\nlf\n", "lf(a) = a / 1e-17\nlf\nlf(1)\n",
              "lf(a) = a + 4.9e-324\nlf\n", "lf(a, a) = a\nlf\n", "lf(x) = x\nww = lf\nww(y) = y + 1\nww\nlf\n",
              "lf(a) = a + 1\nlf(a, q) = a * q\nww = lf\ndelete ww(a)\nlf\nww\n", "lf(n) = n * 2\nlf(0) = [1, 2] dot [3, 4]\nww = lf\ndelete lf(0)\nww\nlf\n",
+             "lf(0.3) = 1\nlf(0.30000000000000004) = 2\nlf\nlf(0.3)\n", "lf(9007199254740992) = 1\nlf(9007199254740994) = 2\nlf\n", "lf(1) = 1\nlf(1.0000000000000002) = 2\nlf(0.9999999999999999) = 3\nlf\n",
+             "lf(1e300) = 1\nlf(1.0000000000000002e300) = 2\nlf\n", "lf(4.9e-324) = 1\nlf(0) = 2\nlf(1e-323) = 3\nlf\n", "lf(a, 0.1) = a\nlf(a, 0.10000000000000002) = -a\nlf\n",
              "lf(v_, w) = v_ dot w\nlf\n", "lf(w, _v) = w cross _v\nlf\n", "lf(t°) = t° cross t°\nlf\n"]
     judges.do_stream(ctx, "redefinitions", (gen.hist_case("q%d" % k, [t]) for k, t in enumerate(redef)), P, monitors={"print_mismatch"})
     # multi-signature listings: one entry per signature, in order
